@@ -480,6 +480,9 @@ func c15MultiOnce(c *mon.Ctx, r *mon.Rand) {
 		if tr.IsOpen() {
 			c.Violation("open-after-close", map[string]interface{}{"case": desc})
 		}
+		if err := tr.Flush(); err == nil {
+			c.Violation("use-after-close-accepted", map[string]interface{}{"why": "Flush after Close (nothing written since) returned nil", "case": desc})
+		}
 		if _, err := tr.Write([]byte("x")); err == nil {
 			c.Violation("use-after-close-accepted", map[string]interface{}{"why": "Write after Close returned nil", "case": desc})
 		}
